@@ -88,10 +88,11 @@ type Engine struct {
 }
 
 type Worker struct {
-	e   *Engine
-	sol *Solver
-	job *Job
-	sch *Sched
+	e         *Engine
+	sol       *Solver
+	job       *Job
+	sch       *Sched
+	fmtActive map[int]bool // containers being formatted (cycle detection in the fmt stub)
 }
 
 type pathEnd struct{ why string }
